@@ -136,17 +136,18 @@ type vfMsg struct {
 
 type vfConn struct {
 	w      *vfWorld
+	ifi    string
 	k      int
 	inbox  chan vfMsg
 	dlC    chan struct{}
 	dlOnce sync.Once
 }
 
-func (w *vfWorld) newConn() *vfConn {
+func (w *vfWorld) newConn(ifi string) *vfConn {
 	w.mu.Lock()
 	defer w.mu.Unlock()
 	w.nconn++
-	c := &vfConn{w: w, k: w.nconn, inbox: make(chan vfMsg, 1<<14), dlC: make(chan struct{})}
+	c := &vfConn{w: w, ifi: ifi, k: w.nconn, inbox: make(chan vfMsg, 1<<14), dlC: make(chan struct{})}
 	w.cur = c
 	return c
 }
@@ -169,33 +170,33 @@ func vfDstName(a netip.Addr) string {
 }
 
 func (c *vfConn) ReadFrom() (ndp.Message, *ipv6.ControlMessage, netip.Addr, error) {
-	c.w.rec.emit("rcall", "k", c.k)
+	c.w.rec.emit("rcall", "ifi", c.ifi, "k", c.k)
 	// An expired deadline wins over queued data, as on a real socket.
 	select {
 	case <-c.dlC:
-		c.w.rec.emit("in", "k", c.k, "kind", "deadline", "src", "", "hl", 0, "tag", "")
+		c.w.rec.emit("in", "ifi", c.ifi, "k", c.k, "kind", "deadline", "src", "", "hl", 0, "tag", "")
 		return nil, nil, netip.Addr{}, vfTimeout{}
 	default:
 	}
 	select {
 	case m := <-c.inbox:
 		if ra, ok := m.m.(*ndp.RouterAdvertisement); ok && c.w.fullRA {
-			c.w.rec.emit("in", "k", c.k, "kind", m.kind, "src", vfSrcName(m.from), "hl", m.hl, "tag", m.tag, "ra", vfAbsRA(ra))
+			c.w.rec.emit("in", "ifi", c.ifi, "k", c.k, "kind", m.kind, "src", vfSrcName(m.from), "hl", m.hl, "tag", m.tag, "ra", vfAbsRA(ra))
 		} else {
-			c.w.rec.emit("in", "k", c.k, "kind", m.kind, "src", vfSrcName(m.from), "hl", m.hl, "tag", m.tag)
+			c.w.rec.emit("in", "ifi", c.ifi, "k", c.k, "kind", m.kind, "src", vfSrcName(m.from), "hl", m.hl, "tag", m.tag)
 		}
 		if m.err != nil {
 			return nil, nil, netip.Addr{}, m.err
 		}
 		return m.m, &ipv6.ControlMessage{HopLimit: m.hl}, m.from, nil
 	case <-c.dlC:
-		c.w.rec.emit("in", "k", c.k, "kind", "deadline", "src", "", "hl", 0, "tag", "")
+		c.w.rec.emit("in", "ifi", c.ifi, "k", c.k, "kind", "deadline", "src", "", "hl", 0, "tag", "")
 		return nil, nil, netip.Addr{}, vfTimeout{}
 	}
 }
 
 func (c *vfConn) SetReadDeadline(t time.Time) error {
-	c.w.rec.emit("deadline", "k", c.k)
+	c.w.rec.emit("deadline", "ifi", c.ifi, "k", c.k)
 	if t.Equal(deadlineNow) || (!t.IsZero() && t.Before(time.Now())) {
 		c.dlOnce.Do(func() { close(c.dlC) })
 	}
@@ -215,7 +216,7 @@ func (c *vfConn) WriteTo(m ndp.Message, _ *ipv6.ControlMessage, dst netip.Addr) 
 	if !c.w.fullRA {
 		abs = nil
 	}
-	c.w.rec.emit("wcall", "k", c.k, "dst", d, "mc", dst.IsMulticast(), "type", typ, "life", life, "body", body, "ra", abs)
+	c.w.rec.emit("wcall", "ifi", c.ifi, "k", c.k, "dst", d, "mc", dst.IsMulticast(), "type", typ, "life", life, "body", body, "ra", abs)
 	c.w.pass("w|" + d)
 	c.w.mu.Lock()
 	class := c.w.failw[d]
@@ -224,10 +225,10 @@ func (c *vfConn) WriteTo(m ndp.Message, _ *ipv6.ControlMessage, dst netip.Addr) 
 	}
 	c.w.mu.Unlock()
 	if class != "" {
-		c.w.rec.emit("wret", "k", c.k, "dst", d, "mc", dst.IsMulticast(), "ok", false, "class", class)
+		c.w.rec.emit("wret", "ifi", c.ifi, "k", c.k, "dst", d, "mc", dst.IsMulticast(), "ok", false, "class", class)
 		return vfErrClass(class)
 	}
-	c.w.rec.emit("wret", "k", c.k, "dst", d, "mc", dst.IsMulticast(), "ok", true, "class", "")
+	c.w.rec.emit("wret", "ifi", c.ifi, "k", c.k, "dst", d, "mc", dst.IsMulticast(), "ok", true, "class", "")
 	return nil
 }
 
